@@ -271,6 +271,12 @@ def evaluate(run, lines, meta, exe, drv):
         m0 = parse(model.get(cid, '(missing)'))
         faithful = tag(m0) == 'ok' and (m0[1][1] if tag(m0[1]) == 'ok' else tag(m0[1])) == valid and \
             tag(m0[3]) == tag(datum) and (tag(datum) != 'ok' or m0[3][1] == datum[1])
+        if tag(m0) == 'unresolvable' and tag(valid) == 'panic' and all(tag(x) in ('writer-err', 'err') for x in (datum, so, cont)) \
+                and fw.null_ns_schema(st):
+            # the names of the schema do not resolve (null-namespace type nested in a namespaced one, F19 / F26): Value::validate
+            # panics as its documentation says, no writer can be built; the faithful model agrees that resolution fails
+            run.fail('unresolvable-reference-accepted', 'the parser accepted the schema but its references do not resolve: Value::validate panics (documented), no writer can be built', case)
+            continue
         if tag(valid) == 'panic' or any(tag(x) == 'panic' for x in (datum, so, cont)):
             run.fail('panic', 'validation or a writer panicked', case)
             continue
@@ -291,6 +297,10 @@ def evaluate(run, lines, meta, exe, drv):
             if bad:
                 cls = classify(name, st) if faithful else None
                 if cls is None and faithful and tag(dec) == 'ok' and dec[2] == '#' and same_info(parse(v), dec[1], drop=True):
+                    cls = 'bare-record-encoded-as-earlier-variant'
+                if cls is None and faithful and name == 'bare-record-in-union' and tag(datum) == 'ok':
+                    # same defect, other symptom: the fields were written under the earlier variant's field schemas and the
+                    # bytes do not decode (or decode to something unrelated); the faithful model writes the same bytes
                     cls = 'bare-record-encoded-as-earlier-variant'
                 run.fail(cls or ('accepted-not-written:' + name), bad, case)
             else:
